@@ -259,6 +259,16 @@ func execOpCase(c *Case) []ModeResult {
 				o2 := execOpAPITwice(c)
 				out = append(out, ModeResult{"api:same-tensors-twice", Verdict(c, o2), o2.Short()})
 			}
+			if len(c.Attrs) >= 2 {
+				// the order of a node's attributes carries no meaning
+				rev := *c
+				rev.Attrs = make([]Attr, len(c.Attrs))
+				for i, a := range c.Attrs {
+					rev.Attrs[len(c.Attrs)-1-i] = a
+				}
+				o3 := execOpAPI(&rev)
+				out = append(out, ModeResult{"api:attributes-reversed", Verdict(c, o3), o3.Short()})
+			}
 		case "run":
 			for _, o := range execOpRun(c, len(c.Inputs), 1) {
 				out = append(out, ModeResult{"run", Verdict(c, o), o.Short()})
